@@ -3,6 +3,7 @@
   (Counting half; the "complete adjoint" half is the path-sum theorem of C01.)
 -/
 import CorgiProofs.EngineTop
+import CorgiProofs.Reachable
 
 set_option linter.unusedSectionVars false
 
@@ -63,8 +64,23 @@ example : chainG.Lawful := by
     simp [hn, pure, Except.pure] at hcl ⊢
     subst hcl; simp
 
+
+/-- **Exactly once, consumers first, in every reachable state.**  In the state after any history of
+    commands, a completed pass on any bound array `v` with any seed entered exactly the nodes reachable
+    from it through tracked stored operands, each exactly once, each only after all its consumers —
+    with no assumption on the graph: the recorded graph of a reachable state is always well-founded
+    with lawful closures (`graph_wf`, `graph_lawful`), and the engine state always clean. -/
+theorem C11_once_reachable {σ σ' : State S} (hr : Reachable σ) (v : String) (h : Handle)
+    (seed : Option (Tensor S)) (hg : σ.get v = .ok h) (hok : σ.backward h seed = .ok σ') :
+    ∃ e : EState S, σ' = σ.withEState e ∧
+      (logN e).Nodup ∧ (∀ m, m ∈ logN e ↔ Reach σ.graph h.node m) ∧ LogOrder σ.graph h.node (logN e) ∧
+      σ'.lastLog.map (·.1) = (logN e).reverse := by
+  obtain ⟨e, _, he, _, _, _, h1, h2, h3⟩ := good_backward_counts hr.good (get_valid hr.good.roots hg) seed hok
+  exact ⟨e, he, h1, h2, h3, by rw [he]; exact lastLog_nodes σ e⟩
+
 end Corgi
 
 #print axioms Corgi.C11_once
 #print axioms Corgi.C11_after
 #print axioms Corgi.C11_linear_work
+#print axioms Corgi.C11_once_reachable
